@@ -310,6 +310,8 @@ def run(ck):
     # the decoder's decisions (trailer, wrap, flags) are those of the reference
     from .. import condparity as _cp
     ck.floor("SIB/ref-conditions", _cp.check(ck, P, "SIB/ref-conditions", only={"inflate.c:inflate"}), 45)
+    from .. import guards as _g
+    _g.crc_fold_start(ck, P)
     extend_siblings(ck, P)
     wrap_who(ck, P)
     checksum_update_guard(ck, P)
